@@ -447,6 +447,37 @@ func CorpusHistories(scratch string, names map[string]bool) ([]*History, []strin
 			g.Params.LazyRewardBlocks = 2
 			g.Params.MinVotingPeriodBlocks, g.Params.MaxVotingPeriodBlocks, g.Params.LazyApplyingBlocks = 1, 3, 1
 		}},
+		// governance doubles the minimum gas: from the block after the change took effect a transaction that
+		// pays the OLD minimum fee is refused (the price a fee is checked against is the one in force)
+		{"minimum-fee-raised-by-governance", 1, 2, 13, func(s *Sim, h int64) []*TxSpec {
+			u := s.User(0)
+			switch h {
+			case 3:
+				np := s.params
+				np.MinTrxGas, np.Version = 2*s.params.MinTrxGas, 2
+				t := s.TxProposal(s.Val(0), 4, 1, 6)
+				t.Prop.Options = []OptSpec{{Raw: np.JSON(true), Params: &np}}
+				s.scriptOldGas = s.params.MinTrxGas
+				return []*TxSpec{t}
+			case 4:
+				if len(s.H.WatchH) > 0 {
+					return []*TxSpec{s.TxVote(s.Val(0), s.H.WatchH[len(s.H.WatchH)-1], 0)}
+				}
+			case 5, 6, 7, 8, 9, 10, 11:
+				old := s.TxTransfer(u, s.User(1).Addr, "5")
+				old.Gas, old.Note = s.scriptOldGas+1, "transfer-paying-the-old-minimum-fee"
+				ok := s.TxTransfer(u, s.User(1).Addr, "6")
+				ok.Note = "transfer-paying-the-current-minimum-fee"
+				if old.Gas >= s.params.MinTrxGas { // still enough: both succeed, the second one follows
+					ok.Nonce++
+				}
+				return []*TxSpec{old, ok}
+			}
+			return nil
+		}, func(g *Genesis) {
+			easyParams(g)
+			g.Params.MinVotingPeriodBlocks, g.Params.MaxVotingPeriodBlocks, g.Params.LazyApplyingBlocks = 1, 3, 1
+		}},
 		// a parameter document that names only a few parameters wins: the others keep their values — in the
 		// running node AND in what is stored (a node restarted afterwards reads the stored set); transactions
 		// that depend on parameters the document left out follow
